@@ -5,6 +5,7 @@ Binding: every operation script enumerated by TLC is replayed on the real Termin
 async context managers for n = 1..4 FMMUs; the recorded run (slot yielded, register writes seen
 by the bus stub, fmmu_used after each step) is validated by TLC as a behaviour of Fmmu."""
 import asyncio
+import time
 
 from harness import tlc as T
 
@@ -27,7 +28,13 @@ class Boom(Exception):
     pass
 
 
-async def replay(script, n):
+IDENT = [1, 2, 3, 4, 5, 6]
+# addresses per mapping identity (spec address = real logical address + 1): all different; two mappings at one
+# address (outputs and inputs of a logical read-write: map_fmmu does not forbid it); all at one address
+ADDR_MAPS = [IDENT, [1, 1, 2, 4, 5, 6], [2, 1, 1, 4, 5, 6], [1, 1, 1, 4, 5, 6]]
+
+
+async def replay(script, n, addr=IDENT):
     from ebpfcat.ethercat import Terminal
     ec = StubEC()
     t = Terminal(ec)
@@ -47,7 +54,7 @@ async def replay(script, n):
         m = op["m"]
         mark = len(ec.log)
         if op["op"] == "map":
-            cm = t.map_fmmu(m - 1, op["write"])
+            cm = t.map_fmmu(addr[m - 1] - 1, op["write"])
             try:
                 slot = await cm.__aenter__()
             except Exception as e:
@@ -79,7 +86,7 @@ async def replay(script, n):
                 except Boom:
                     pass
                 ev.append(dict(op="abort", m=m, tbl=tbl()))
-    return dict(n=n, ev=ev, script=script)
+    return dict(n=n, ev=ev, script=script, addr=addr)
 
 
 async def replay_concurrent(pre, batch, order, n):
@@ -135,7 +142,7 @@ async def replay_concurrent(pre, batch, order, n):
             if len(w) == 1 and (w[0][1] - 0x60c) % 0x10 == 0 and w[0][2][-1] == 0:
                 deact = (w[0][1] - 0x60c) // 0x10
             ev.append(dict(op="unmap", m=m, deact=deact, tbl=tbl()))
-    return dict(n=n, ev=ev, script=dict(pre=pre, batch=batch, order=order, concurrent=True))
+    return dict(n=n, ev=ev, script=dict(pre=pre, batch=batch, order=order, concurrent=True), addr=IDENT)
 
 
 def concurrent_scripts():
@@ -169,6 +176,25 @@ CHECK_DEADLOCK FALSE
         raise T.MachineryError("Fmmu.tla violates its own invariants:\n" + res.counterexample())
     ctx.tlc_stats(res)
     ctx.extra["mc_fmmu"] = dict(distinct=res.distinct, generated=res.generated, MaxN=4)
+    # 1b. the same with mappings told apart from their addresses (two live mappings may carry one address); with
+    #     distinct addresses FmmuAddr steps are Fmmu steps
+    k = 2 if ctx.quick else 3
+    T.write_cfg(wd, "mca.cfg", f"""SPECIFICATION ASpec
+CONSTANTS MaxN = {k}
+          Ids = {{1, 2, 3}}
+          Addrs = {{1, 2, 3}}
+INVARIANTS NoSharing
+           RegsAgree
+           CountAgree
+           TypeOK
+PROPERTY RefinesFmmu
+CHECK_DEADLOCK FALSE
+""")
+    res = T.require_clean(T.run(wd, "MC_FmmuAddr", "mca.cfg", timeout=900, coverage=True), "MC_FmmuAddr")
+    if not res.ok:
+        raise T.MachineryError("FmmuAddr.tla violates its own invariants:\n" + res.counterexample())
+    ctx.tlc_stats(res)
+    ctx.extra["mc_fmmu_addr"] = dict(distinct=res.distinct, generated=res.generated, MaxN=k)
     # 2. environment scripts from TLC
     T.write_cfg(wd, "scripts.cfg", f"""SPECIFICATION SSpec
 CONSTANTS Logicals = {{{", ".join(map(str, logicals))}}}
@@ -187,7 +213,8 @@ CHECK_DEADLOCK FALSE
     loop = asyncio.new_event_loop()
     for s in scripts:
         for n in (1, 2, 3, 4):
-            traces.append(loop.run_until_complete(replay(s, n)))
+            for addr in (ADDR_MAPS[:2] + ADDR_MAPS[3:] if ctx.quick else ADDR_MAPS):
+                traces.append(loop.run_until_complete(replay(s, n, addr)))
     # mappings of one terminal set up concurrently (two sync groups sharing a terminal started together): added
     # after a seeded change - the FMMU marked used only after the awaited register write - passed the sequential scripts
     nconc = 0
@@ -197,11 +224,14 @@ CHECK_DEADLOCK FALSE
             nconc += 1
     ctx.extra["concurrent_traces"] = nconc
     loop.close()
-    results = T.validate_traces(ctx, wd, "FmmuTrace", "FmmuTrace.cfg",
-                                [dict(n=t["n"], ev=t["ev"]) for t in traces], chunk=4000)
+    t0 = time.time()
+    results = T.validate_traces(ctx, wd, "FmmuAddrTrace", "FmmuAddrTrace.cfg",
+                                [dict(n=t["n"], ev=t["ev"], addr=t["addr"]) for t in traces], chunk=4000)
+    ctx.extra["seconds_trace_validation"] = round(time.time() - t0, 1)
     ctx.exhaustive = True
     ctx.rule = (f"all map/unmap/abort scripts of length {maxlen} over {len(logicals)} mappings "
-                f"(TLC-enumerated) x n=1..4 FMMUs; non-trivial = at least two mappings live at once")
+                f"(TLC-enumerated) x n=1..4 FMMUs x {len(ADDR_MAPS)} assignments of addresses to mappings (distinct, two at one address, "
+                f"all at one address); non-trivial = at least two mappings live at once")
     ctx.extra["script_len"] = maxlen
     for t, (matched, length, inv) in zip(traces, results):
         ctx.traces += 1
@@ -212,12 +242,12 @@ CHECK_DEADLOCK FALSE
             elif e["op"] in ("unmap", "abort"):
                 live -= 1
             livemax = max(livemax, live)
-        ctx.evaluated((t["n"], repr(t["script"])), nontrivial=livemax >= 2)
+        ctx.evaluated((t["n"], repr(t["script"]), tuple(t["addr"])), nontrivial=livemax >= 2)
         if len(ctx.samples) < 3 and livemax >= 2:
             ctx.sample(dict(n=t["n"], ev=t["ev"]))
         if matched != length or isinstance(inv, str):
             bad = t["ev"][matched] if matched < length else None
-            ctx.case_failed(dict(n=t["n"], script=t["script"], ev=t["ev"], rejected_at=matched,
+            ctx.case_failed(dict(n=t["n"], script=t["script"], addr=t["addr"], ev=t["ev"], rejected_at=matched,
                                  rejected_event=bad),
                             f"trace rejected by Fmmu at event {matched}: {bad}" if bad else
                             f"invariant violated: {inv}")
@@ -225,6 +255,6 @@ CHECK_DEADLOCK FALSE
 
 def replay_case(case):
     loop = asyncio.new_event_loop()
-    t = loop.run_until_complete(replay(case["script"], case["n"]))
+    t = loop.run_until_complete(replay(case["script"], case["n"], case.get("addr", IDENT)))
     loop.close()
     return t
